@@ -99,6 +99,11 @@ Definition orphaned (S : schema) (F : features) : list name :=
 (** exclusion of the known finding [orphaned-type-stays-visible] *)
 Definition excl_orphaned_type (S : schema) (F : features) : bool := negb (is_nil (orphaned S F)).
 
+(** ** Equivalence of two views for a request with feature set F on schema S: they agree on every
+    lookup that is applied to type pointers the request may hold *)
+Definition view_equiv (S : schema) (F : features) (v1 v2 : query_ -> option answer) : Prop :=
+  forall q, (forall h, In h (handle_args q) -> visible S F h = true) -> v1 q = v2 q.
+
 (** ** The property for one consumer *)
 Definition indistinguishable {A} (S : schema) (F G : features) (p : prog A) : Prop :=
   run fixed S F [] p = run fixed (erase S F) G [] p.
